@@ -71,10 +71,10 @@ class DecodeState:
             return base_data_type.python_type()
 
         if base_data_type == DataType.A_FLOAT32 and bit_length != 32:
-            odxraise("The bit length of FLOAT32 values must be 32 bits")
+            odxraise("The bit length of FLOAT32 values must be 32 bits", DecodeError)
             bit_length = 32
         elif base_data_type == DataType.A_FLOAT64 and bit_length != 64:
-            odxraise("The bit length of FLOAT64 values must be 64 bits")
+            odxraise("The bit length of FLOAT64 values must be 64 bits", DecodeError)
             bit_length = 64
 
         if bit_length % 8 != 0 and base_data_type.bitstruct_format_letter == "r":
